@@ -2,19 +2,23 @@
 # Creates /verif/.venv (overlay of /venv + /repo on sys.path + crosshair-tool from the offline wheelhouse).
 # Idempotent, offline.  Every check calls it first (a fresh restore has no .venv).
 set -e
-V=/verif/.venv
-if [ -x "$V/bin/python" ] && "$V/bin/python" -c 'import crosshair, z3, histogrammar, numpy' >/dev/null 2>&1; then
+# VERIF_REPO (default /repo) = the histogrammar tree to analyse; VERIF_VENV (default <this dir>/../.venv) = overlay location
+HERE=$(cd "$(dirname "$0")/.." && pwd)
+R=${VERIF_REPO:-/repo}
+V=${VERIF_VENV:-$HERE/.venv}
+ok() { [ -x "$V/bin/python" ] && [ "$("$V/bin/python" -c 'import crosshair, z3, numpy, histogrammar, os; print(os.path.dirname(os.path.dirname(histogrammar.__file__)))' 2>/dev/null)" = "$R" ]; }
+if ok; then
   exit 0
 fi
 (
   flock 9
-  if [ -x "$V/bin/python" ] && "$V/bin/python" -c 'import crosshair, z3, histogrammar, numpy' >/dev/null 2>&1; then
+  if ok; then
     exit 0
   fi
   rm -rf "$V"
   /venv/bin/python -m venv "$V"
   SP=$("$V/bin/python" -c 'import sysconfig; print(sysconfig.get_paths()["purelib"])')
-  printf '/venv/lib/python3.12/site-packages\n/repo\n' > "$SP/_overlay.pth"
+  printf '/venv/lib/python3.12/site-packages\n%s\n' "$R" > "$SP/_overlay.pth"
   PIP_NO_INDEX=1 "$V/bin/pip" install -q --no-index --find-links /opt/veriftools/wheels crosshair-tool >/dev/null
-  "$V/bin/python" -c 'import crosshair, z3, histogrammar, numpy'
-) 9>/verif/.venv.lock
+  ok
+) 9>"$V.lock"
